@@ -752,6 +752,11 @@ func c18ReaderNext(r *eng.Run) {
 	cfg := ReadCfg{App: AppReader, CheckUTF8: r.T.Bool(sim.LCfg), OnInter: r.T.Int(sim.LCfg, 4), OnCont: r.T.Bool(sim.LCfg), ProbeIdle: true}
 	cfg.ContErr = cfg.OnCont && r.T.Chance(sim.LCfg, 1, 3)
 	cfg.SwapSource = r.T.Bool(sim.LCfg)
+	if !cfg.SwapSource && r.T.Chance(sim.LCfg, 1, 3) {
+		// The Reader's source is the bufio.Reader the handshake left behind.
+		cfg.Bufio = []int{16, 64, 4096}[r.T.Int(sim.LSize, 3)]
+		r.Probe("reader_source_is_bufio_reader")
+	}
 	if r.T.Bool(sim.LSide) {
 		cfg.Side = ref.Client
 	}
